@@ -104,3 +104,24 @@ TEXT = {
                 note='The pub-fn table is regenerated from the source on every run; functions outside the models are covered by the sweep only.',
                 technique='Lean 4 proof (no-panic of models) + exhaustive small-scope sweep + translator (pub fn table)', ref='DESIGN.md 5 C20'),
 }
+
+
+# model-level theorems added after the first round (appended to the level text)
+MODEL_LEVEL = {
+    'C03': 'Entry level (Props/C03Rows): rowsNodup / entriesStored are invariants of every reachable store, hence every single entry of '
+           'successors_vec / predecessors_vec carries exactly the minimum stored weight (C03_entry_exact).',
+    'C06': 'Model level (Props/C06Model, C03Rows): the closeness model equals the definition on every well-formed store (unweighted) and on '
+           'every reachable store with positive weights (weighted), incl. exactness of closeness.rs\' own BFS / Dijkstra stages.',
+    'C09': 'Model level (Props/C09Model, C12Weighted): degree, in/out degree, weighted degrees and the for-all-nodes maps of the model equal the abstract values.',
+    'C10': 'Model level (Props/C10Model): BFS, connected / weak components and the iterative Tarjan-style strong-components model are proved '
+           'correct for every well-formed store and every successor order (fuel bound included).',
+    'C11': 'Model level (Props/C11Model): triangles, clustering (undirected and Fagiolo directed), transitivity and square clustering of the model '
+           'equal the definitions on every well-formed store.',
+    'C12': 'Model level (Props/C09Model, C12Weighted): unweighted and weighted modularity of the model equal Newman\'s formula for every true partition, degenerate NaN cases included.',
+    'C13': 'Model level (Props/C13Model): for every shuffle, resolution and threshold every returned level is a partition into non-empty sets, levels are nested, '
+           'and no slice index or unwrap site of compute_one_level / generate_graph can panic on a well-formed store.',
+    'C14': 'Escaping layer (Props/C14Escape, Model/Escape = quick-xml escape/unescape over bytes, tied by the esc correspondence family): unescape(escape s) = s '
+           'for every byte string, the written value cannot end the attribute early; C14_roundtrip_abs: read(write g) is a well-formed store of the same abstract graph.',
+}
+for _k, _v in MODEL_LEVEL.items():
+    TEXT[_k]['level'] = TEXT[_k]['level'] + ' ' + _v
